@@ -262,6 +262,45 @@ def attempt_run(name, defs, tier, seed, cfgs, tlc_workers=8):
                                           "loop" if (s_ + 1) in targets else "noloop", min(3, len(targets - {s_ + 1})),
                                           "/eoi" if g["eoi"][s_] else "", "/root" if g["root"] == s_ + 1 else "")
             kinds[k] = kinds.get(k, 0) + 1
+    # ... and which implementations of an edge test the generator has to emit for them
+    # (mirrors ByteClass::impl_with_cmp / Comparisons::count_ops; used as a coverage metric only)
+    for line, m in zip(open(defs_path), metas):
+        td = json.loads(line)
+        if not (td["accepted"] and td["hasGraph"]):
+            continue
+        g = td["g"]
+        for s_ in range(g["n"]):
+            by_t = {}
+            for x, t in enumerate(g["edge"][s_]):
+                if t:
+                    for lo, hi in m["blocks"][x]:
+                        by_t.setdefault(t, []).extend(range(lo, hi + 1))
+            nonself = [t for t in by_t if t != s_ + 1]
+            for t, bs in by_t.items():
+                bs.sort()
+                ranges = []
+                for b in bs:
+                    if ranges and ranges[-1][1] + 1 == b:
+                        ranges[-1][1] = b
+                    else:
+                        ranges.append([b, b])
+                comps = []
+                for lo, hi in ranges:
+                    if comps and lo == comps[-1][1] + 2:
+                        comps[-1][1] = hi
+                        comps[-1][2] += 1
+                    else:
+                        comps.append([lo, hi, 0])
+                ops = sum((1 if c[0] == c[1] else (c[0] > 0) + (c[1] < 255)) + c[2] for c in comps)
+                if t == s_ + 1:
+                    k = "edge:self-loop-lut"
+                elif len(nonself) > 2:
+                    k = "edge:jump-table"
+                elif ops > 2:
+                    k = "edge:lut-test"
+                else:
+                    k = "edge:compare%s%s" % ("-with-hole" if any(c[2] for c in comps) else "", "-multi" if len(comps) > 1 else "")
+                kinds[k] = kinds.get(k, 0) + 1
     out = {
         "state_kinds": kinds,
         "name": name, "tier": tier, "seed": seed, "cfgs": cfgs,
